@@ -16,7 +16,7 @@ pub fn def() -> PropDef {
     PropDef {
         id: "C07",
         level: "exploration",
-        profiles: &["checked"],
+        profiles: &["checked", "fast"],
         abort_is_violation: false,
         rule: "abstract formulas (cnf/wcnf/gcnf, with and without header, for i8..isize) and solver logs are \
                rendered by an independent layout renderer driven by a proptest-drawn choice stream: leading \
